@@ -278,7 +278,83 @@ func checkC07(w *World) {
 			}
 		})
 	}
-	w.floor(P, "R07.3", 4)
+	// the two-argument form selects everything from the start position on: its end bound must not be computed from the start
+	if b := f.Builtins["substring"]; b != nil && b.Fns[-1] != nil {
+		impl := b.Fns[-1]
+		args := impl.Params[len(impl.Params)-1]
+		isArg := func(v ssa.Value, k int64) bool {
+			recv, ok := isMethodCall(v, "Number")
+			if !ok {
+				return false
+			}
+			ld, ok := recv.(*ssa.UnOp)
+			if !ok {
+				return false
+			}
+			ia, ok := ld.X.(*ssa.IndexAddr)
+			if !ok || ia.X != ssa.Value(args) {
+				return false
+			}
+			kk, ok := constInt(ia.Index)
+			return ok && kk == k
+		}
+		threeArgGuard := func(b *ssa.BasicBlock) bool {
+			for _, a := range guardAtoms(b) {
+				if bo, ok := a.V.(*ssa.BinOp); ok && isLenOf(bo.X, nil) {
+					if k, isK := constInt(bo.Y); isK && ((bo.Op == token.EQL && k == 3 && a.Pol) || (bo.Op == token.EQL && k == 2 && !a.Pol) || (bo.Op == token.NEQ && k == 3 && !a.Pol) || (bo.Op == token.GTR && k == 2 && a.Pol) || (bo.Op == token.GEQ && k == 3 && a.Pol)) {
+						return true
+					}
+				}
+			}
+			return false
+		}
+		allInstrs(impl, func(in ssa.Instruction) {
+			sl, ok := in.(*ssa.Slice)
+			if !ok || sl.High == nil {
+				return
+			}
+			if _, isC := constInt(sl.High); isC || !charDerived(sl.High) {
+				return
+			}
+			// does the high bound depend on args[1] through a value that is not confined to the three-argument path?
+			dep := false
+			seen := map[ssa.Value]bool{}
+			var walk func(v ssa.Value, guarded bool)
+			walk = func(v ssa.Value, guarded bool) {
+				if v == nil || seen[v] && !guarded {
+					return
+				}
+				seen[v] = true
+				if isArg(v, 1) {
+					if !guarded {
+						dep = true
+					}
+					return
+				}
+				if phi, ok := v.(*ssa.Phi); ok {
+					for i, e := range phi.Edges {
+						g := guarded || threeArgGuard(phi.Block().Preds[i])
+						if ei, ok := e.(ssa.Instruction); ok && threeArgGuard(ei.Block()) {
+							g = true
+						}
+						walk(e, g)
+					}
+					return
+				}
+				if inst, ok := v.(ssa.Instruction); ok {
+					g := guarded || threeArgGuard(inst.Block())
+					for _, op := range inst.Operands(nil) {
+						if *op != nil {
+							walk(*op, g)
+						}
+					}
+				}
+			}
+			walk(sl.High, false)
+			w.check(P, "R07.3", "substring: end bound of the two-argument form", sl.Pos(), !dep, fmt.Sprintf("the end bound depends on the start position outside the three-argument path: %v (with an infinite end, start + length is NaN for a start of -Infinity and the whole string is lost)", dep))
+		})
+	}
+	w.floor(P, "R07.3", 5)
 
 	// R07.4 translate
 	w.translateShape(P, f)
